@@ -71,11 +71,6 @@ _CLIP = {
 C09_SIZE_EXCEPTIONS = {
     f"widget.padding.Padding.{m}:self._original_widget.{m}": _CLIP for m in ("keypress", "mouse_event", "get_cursor_coords", "move_cursor_to_coords", "get_pref_col")
 }
-C09_SIZE_EXCEPTIONS["widget.frame.Frame.keypress:self._body.keypress"] = {
-    "when": None,
-    "reason": "Frame.keypress derives the body height itself (maxrow minus header/footer rows(), augmented assignments) instead of frame_top_bottom(); "
-    "the two derivations agree whenever header and footer fit, which is C09's precondition; not compared",
-}
 
 # C16: list mutators that need no focus override in MonitoredFocusList, one reason each.
 C16_FOCUS_EXEMPT = {}  # __iadd__ used to be exempt; it has to go through extend() so that the validate callback sees the new items
